@@ -62,6 +62,11 @@ def cases(tier):
     first = [f"M {H} {' '.join(base)} END"]
     out.append(("repeated after another compilation", [first, [other], first], (0, 2)))
     out.append(("repeated at once", [[ma, mb], [ma, mb]]))
+    # the compilation in between uses the SAME type and value names with another meaning (stale caches keyed by name would show)
+    g1 = [f"Gauges {H} limit INTEGER ::= {P1} Level ::= INTEGER (0..limit) Reading ::= SEQUENCE {{ raw INTEGER (0..limit), e Ee DEFAULT x }} Ee ::= ENUMERATED {{ x, y }} END"]
+    g2 = [f"Tanks {H} Level ::= INTEGER {{ empty(0), limit({P2}) }} (empty..limit) Reading ::= SEQUENCE {{ raw Level DEFAULT limit }} Ee ::= ENUMERATED {{ y, x }} x Ee ::= y END"]
+    out.append(("repeated after a compilation that reuses its names", [g1, g2, g1], (0, 2)))
+    out.append(("repeated after a compilation that reuses its names (2)", [g2, g1, g2], (0, 2)))
     return out
 
 
@@ -130,13 +135,21 @@ def run_job(prog_unused, job, tier, seed):
                     m = chk.model_of(r.pc)
                 vals = [model_int(m, x, True) if m is not None else d0 for x, d0 in zip(v, (5, 9))]
                 sa, sb = conc(variants[i], vals), conc(variants[j], vals)
-                ra, rb = runner.compile(sa), runner.compile(sb)
+                if compare:
+                    ra = rb = {'ok': True, 'generated': '', 'warnings': []}      # only the history replay below can confirm
+                else:
+                    ra, rb = runner.compile(sa), runner.compile(sb)
                 same = ra.get('ok') == rb.get('ok') and (not ra.get('ok') or (norm(ra['generated']) == norm(rb['generated']) and len(ra['warnings']) == len(rb['warnings'])))
                 if not same:
                     chk.violation(sig, f"{msg} [values {vals}]: {sa!r} vs {sb!r}", {'kind': 'sources', 'a': sa, 'b': sb})
                 elif compare:
                     # a history effect cannot be replayed by two independent native compilations: replay the whole history in one process
-                    hist = [runner.compile(conc(s, vals)) for s in variants]
+                    # a fresh process: the history to replay must not start from the state earlier replays left behind
+                    fresh = native.Runner()
+                    try:
+                        hist = [fresh.compile(conc(s, vals)) for s in variants]
+                    finally:
+                        fresh.close()
                     if hist[compare[0]].get('generated') != hist[compare[1]].get('generated'):
                         chk.violation(sig, f"{msg} [values {vals}] (native history replay differs too)", {'kind': 'history', 'sources': [conc(s, vals) for s in variants]})
                     else:
